@@ -78,7 +78,7 @@ class Facts:
                 if not im or not re.search(self_re, im.get("self") or ""):
                     continue
             if method is not None:
-                if not im or im.get("method") != method:
+                if not im or im.get("method") != method or b.get("defkind") == "Closure":
                     continue
             if coroutine is not None and b.get("coroutine") != coroutine:
                 continue
